@@ -33,6 +33,7 @@ def shards(tier):
             out.append(dict(dev=dev, op="transfer", sgeo=sg, dgeo=dg, k=1, steps=2 if tier == "quick" else 3, partition_by="auto", neg=True,
                             washes=[1, 2, 3, 4, "flush", "reuse", 5, "wash"], ncand=2 if tier == "quick" else 4))
             out.append(dict(dev=dev, op="transfer", sgeo=sg, dgeo=dg, k=1, steps=2, partition_by="auto", neg=True, diti=True, washes=[1, 3, "flush", "reuse"]))
+            out.append(dict(dev=dev, op="transfer", sgeo=sg, dgeo=dg, k=2, steps=1, partition_by="auto", neg=True, auto_split=False, washes=[1], ncand=2))
             if (sg, dg) != ("t3x2", "p2x2"):
                 out.append(dict(dev=dev, op="transfer", sgeo=sg, dgeo=dg, k=4, steps=1, partition_by="auto", shape2d=True, washes=[1], wl_max=common.BIG * 2))
             out.append(dict(dev=dev, op="transfer", sgeo=sg, dgeo=dg, k=2, steps=1, partition_by="auto", washes=[1], ncand=2, wl_max=common.BIG * 2, bcast=["src:scalar", "src:list1", "dst:scalar", "dst:list1", "vol:scalar", "vol:list1", "src:scalar+vol:scalar"]))
